@@ -10,6 +10,7 @@ package http3
 
 import (
 	"bytes"
+	"errors"
 	"fmt"
 	"net/http"
 	"sync"
@@ -22,16 +23,22 @@ import (
 // verifYieldWriter copies what is written (like a stream's send buffer does) and calls yield right
 // before its at-th Write (0-based) takes place.
 type verifYieldWriter struct {
-	buf   bytes.Buffer
-	n, at int
-	yield func()
+	buf    bytes.Buffer
+	n, at  int
+	failAt int // the failAt-th Write (0-based) fails without taking a byte; -1: none
+	yield  func()
 }
+
+var errVerifWrite = errors.New("verif: injected write error")
 
 func (w *verifYieldWriter) Write(p []byte) (int, error) {
 	if w.n == w.at && w.yield != nil {
 		w.yield()
 	}
 	w.n++
+	if w.n-1 == w.failAt {
+		return 0, errVerifWrite
+	}
 	return w.buf.Write(p)
 }
 
@@ -42,6 +49,13 @@ func (w *verifYieldWriter) Write(p []byte) (int, error) {
 // writes means "after request i returned". Result per request: the fields of the ONE HEADERS frame it
 // wrote, decoded by a fresh QPACK decoder, or an error.
 func VerifInterleavedWriteHeaders(reqs []*http.Request, gzip []bool, at []int, wait time.Duration) ([][]qpack.HeaderField, []error) {
+	return VerifInterleavedWriteHeadersFail(reqs, gzip, at, nil, wait)
+}
+
+// VerifInterleavedWriteHeadersFail is VerifInterleavedWriteHeaders with write errors: failAt[i] is the
+// index of request i's Write on its destination that fails (-1 or absent: none). A failed request
+// reports the error; the requests after it go through the same requestWriter.
+func VerifInterleavedWriteHeadersFail(reqs []*http.Request, gzip []bool, at []int, failAt []int, wait time.Duration) ([][]qpack.HeaderField, []error) {
 	n := len(reqs)
 	rw := newRequestWriter()
 	outs := make([][]byte, n)
@@ -67,7 +81,10 @@ func VerifInterleavedWriteHeaders(reqs []*http.Request, gzip []bool, at []int, w
 			case <-time.After(wait):
 			}
 		}
-		w := &verifYieldWriter{at: at[i], yield: startNext}
+		w := &verifYieldWriter{at: at[i], failAt: -1, yield: startNext}
+		if i < len(failAt) {
+			w.failAt = failAt[i]
+		}
 		errs[i] = rw.writeHeaders(w, reqs[i], gzip[i], quic.StreamID(4*i), nil)
 		w.yield = nil
 		outs[i] = append([]byte(nil), w.buf.Bytes()...)
